@@ -219,17 +219,19 @@ def _replay_attr_trunc(f):
 # every family the project has a recorded message for (the QA corpus: flow, flow-vpn, EVPN, VPLS, MVPN, MUP, SR-policy,
 # BGP-LS, labelled, VPN ...), on a session which negotiated all of them: every truncation of every message and sampled
 # byte mutations.  Decoding and rendering may refuse with a NOTIFICATION, nothing else, and must come back quickly.
-def _decode_render(typ, body):
+def _decode_render(typ, body, nh=False, must_decode=False):
     from exabgp.bgp.message import Message
     from . import c13
 
-    nb, neg = c13.session()
-    inp = {'type': typ, 'body': body.hex()}
+    nb, neg = c13.session_nexthop() if nh else c13.session()
+    inp = {'type': typ, 'body': body.hex(), 'extended_nexthop_negotiated': nh}
     t0 = time.perf_counter()
     try:
         m = Message.unpack(typ, memoryview(body), neg)
     except Exception as e:  # noqa
         if type(e).__name__ in ('Notify', 'Notification'):
+            if must_decode:
+                return {'what': f'a recorded valid message which decodes on a plain session is refused once extended next-hop is negotiated for another family: {str(e)[:120]}', 'input': inp}
             return None
         return {'what': f'decoder raised {type(e).__name__}: {str(e)[:160]}', 'input': inp}
     try:
@@ -254,13 +256,30 @@ def _decode_render(typ, body):
     return None
 
 
-def decode_render(typ, body, limit_s=5):
+def _refused(typ, body, nh):
+    """True when Message.unpack answers with a NOTIFICATION, False when it decodes, None otherwise"""
+    from exabgp.bgp.message import Message
+    from . import c13
+
+    neg = (c13.session_nexthop() if nh else c13.session())[1]
+    try:
+        Message.unpack(typ, memoryview(body), neg)
+        return False
+    except Exception as e:  # noqa
+        return True if type(e).__name__ in ('Notify', 'Notification') else None
+
+
+def _is_v4_unicast_reach(typ, body):
+    return typ == 2 and bytes([0x0E]) in body and (b'\x00\x01\x01' in body)
+
+
+def decode_render(typ, body, limit_s=5, nh=False, must_decode=False):
     import signal
 
     old = signal.signal(signal.SIGALRM, _alarm)
     signal.setitimer(signal.ITIMER_REAL, limit_s)
     try:
-        return _decode_render(typ, body)
+        return _decode_render(typ, body, nh, must_decode)
     except _Timeout:
         return {'what': f'decoding {len(body)} bytes of message type {typ} did not finish within {limit_s} s (unbounded loop)', 'input': {'type': typ, 'body': body.hex()}}
     finally:
@@ -293,11 +312,23 @@ def corpus_all_families(tier, seed):
         kinds[key] += 1
 
     for t, body, src in msgs:
+        # the same session with extended next-hop negotiated for ipv4 unicast: what decoded still decodes (the
+        # messages recorded for ipv4 unicast itself excepted: their next-hop rule did change), nothing untyped
+        plain = _refused(t, body, False)
+        evals += 1
+        f = decode_render(t, body, nh=True, must_decode=(plain is False and not _is_v4_unicast_reach(t, body)))
+        if f:
+            note(f, 'unchanged message, extended next-hop session', src)
         for cut in range(len(body)):
             evals += 1
             f = decode_render(t, body[:cut])
             if f:
                 note(f, f'truncation at {cut}', src)
+            if t == 2 and cut % 3 == 0:
+                evals += 1
+                f = decode_render(t, body[:cut], nh=True)
+                if f:
+                    note(f, f'truncation at {cut}, extended next-hop session', src)
         for _ in range(40 if tier == 'thorough' else 12):
             evals += 1
             f = decode_render(t, mutate(rnd, body))
@@ -310,4 +341,7 @@ def corpus_all_families(tier, seed):
 
 @replayer('C03', 'corpus-all-families')
 def _replay_corpus(f):
-    return decode_render(f['input']['type'], bytes.fromhex(f['input']['body'])) is None
+    i = f['input']
+    nh = i.get('extended_nexthop_negotiated', False)
+    must = nh and 'is refused once extended next-hop' in f['what']
+    return decode_render(i['type'], bytes.fromhex(i['body']), nh=nh, must_decode=must) is None
